@@ -357,3 +357,29 @@ Qed.
 
 Lemma to_prob_le1 dv x : 0 < dv -> x <= dv -> (to_prob dv x <= 1)%Q.
 Proof. intros Hd Hx. unfold to_prob, Qle. cbn [Qnum Qden]. rewrite Z2Pos.id by lia. lia. Qed.
+
+(* ---- the scaled hypothesis of the start-vector theorems, in Q ------------------------------------- *)
+Lemma qsum_scaled_gen D ps : 0 < D -> Forall (fun q => (Z.pos (Qden q) | D)) ps ->
+  Qeq (qsum ps) (Qmake (zsum (map (fun q => Qnum q * (D / Z.pos (Qden q))) ps)) (Z.to_pos D)).
+Proof.
+  intros HD. induction 1 as [|q ps Hq Hps IH].
+  - cbn. unfold Qeq. cbn. lia.
+  - cbn [qsum fold_right map]. fold (qsum ps). rewrite IH, zsum_cons.
+    assert (Hqe : Qeq q (Qmake (Qnum q * (D / Z.pos (Qden q))) (Z.to_pos D))).
+    { unfold Qeq. cbn [Qnum Qden]. rewrite Z2Pos.id by lia.
+      pose proof (div_mul_exact D (Z.pos (Qden q)) ltac:(lia) Hq). nia. }
+    rewrite Hqe at 1. rewrite Qinv_plus_distr. reflexivity.
+Qed.
+
+(* the scaled hypothesis of the start-vector theorems is "sum <= 1" *)
+Lemma scaled_le_iff_qsum_le_1 ps :
+  zsum (fst (scaled ps)) <= snd (scaled ps) <-> (qsum ps <= 1)%Q.
+Proof.
+  unfold scaled. cbn [fst snd].
+  set (D := zprod (map (fun q => Z.pos (Qden q)) ps)).
+  assert (HD : 0 < D).
+  { apply zprod_pos, Forall_forall. intros x Hx. apply in_map_iff in Hx as [q [<- _]]. lia. }
+  assert (Hdiv : Forall (fun q => (Z.pos (Qden q) | D)) ps).
+  { apply Forall_forall. intros q Hq. apply zprod_divide. apply in_map_iff. exists q. auto. }
+  rewrite (qsum_scaled_gen D ps HD Hdiv). unfold Qle. cbn [Qnum Qden]. rewrite Z2Pos.id by lia. lia.
+Qed.
